@@ -44,14 +44,14 @@ use bitcoin::hashes::sha256::Hash as Sha256;
 use bitcoin::hashes::Hash;
 use bitcoin::secp256k1::ecdsa::Signature;
 use bitcoin::secp256k1::{All, PublicKey, Secp256k1, SecretKey};
-use bitcoin::{Transaction, Txid};
+use bitcoin::{Amount, Transaction, TxOut, Txid};
 
 use lightning::chain::chaininterface::ConfirmationTarget;
 use lightning::chain::chainmonitor::Persist;
 use lightning::chain::channelmonitor::{ChannelMonitor, ChannelMonitorUpdate};
 use lightning::chain::{BlockLocator, ChannelMonitorUpdateStatus, Listen};
 use lightning::events::Event;
-use lightning::ln::channelmanager::{ChannelManagerReadArgs, PaymentId};
+use lightning::ln::channelmanager::{ChannelManagerReadArgs, PaymentId, TrustedChannelFeatures};
 use lightning::ln::functional_test_utils::*;
 use lightning::ln::msgs::{self, BaseMessageHandler, ChannelMessageHandler, ErrorAction, MessageSendEvent};
 use lightning::ln::outbound_payment::RecipientOnionFields;
@@ -131,22 +131,6 @@ fn trunc(s: &str, n: usize) -> String {
 }
 fn tx8(t: &Txid) -> String {
 	t.to_string()[..8].to_string()
-}
-
-fn view_json(v: &RevocationView) -> String {
-	format!(
-		"{{\"hn\":{},\"cn\":{},\"ready\":{},\"aw\":{},\"dc\":{},\"mon\":{},\"mpr\":{},\"mpc\":{},\"rf\":{},\"min\":{}}}",
-		v.holder_next,
-		v.counterparty_next,
-		v.channel_ready,
-		v.awaiting_remote_revoke,
-		v.peer_disconnected,
-		v.monitor_update_in_progress,
-		v.monitor_pending_revoke_and_ack,
-		v.monitor_pending_commitment_signed,
-		v.resend_raa_first,
-		v.min_seen_secret
-	)
 }
 
 // ------------------------------------------------------------------------------------------
@@ -240,6 +224,15 @@ struct Rec {
 	async_completed: bool,
 	htlc_signed: bool,
 	fc_with_htlcs: bool,
+	open_mode: String,
+	zero_conf: bool,
+	init_sent: Vec<String>,
+	/// "<kind> ready=.. ours=.. theirs=.. wfb=.." of the receiver before an injected channel_ready
+	dup_states: Vec<String>,
+	dup_violations: u64,
+	/// "<kind> nh=<0|1|2+>"
+	cs_htlc: Vec<String>,
+	cs_violations: u64,
 }
 
 #[derive(Clone)]
@@ -292,11 +285,17 @@ enum Act {
 	ForceClose(usize),
 	Blocks(usize),
 	Confirm(usize),
+	FundConfirm(usize),
+	BatchComplete,
+	/// inject a channel_ready nobody sent (reported as `deliver`); bool = different point
+	ReadyDup(usize, bool),
 }
 impl Act {
 	fn name(&self) -> &'static str {
 		match self {
-			Act::Deliver(_) | Act::Extra(_) => "deliver",
+			Act::Deliver(_) | Act::Extra(_) | Act::ReadyDup(_, _) => "deliver",
+			Act::FundConfirm(_) => "fund_confirm",
+			Act::BatchComplete => "batch_complete",
 			Act::Send(_) => "send",
 			Act::Claim(_) => "claim",
 			Act::Fail(_) => "fail",
@@ -329,8 +328,10 @@ impl Act {
 			| Act::ReloadStale(n)
 			| Act::ForceClose(n)
 			| Act::Blocks(n)
+			| Act::FundConfirm(n)
+			| Act::ReadyDup(n, _)
 			| Act::Confirm(n) => Some(*n),
-			Act::Fee => Some(0),
+			Act::Fee | Act::BatchComplete => Some(0),
 			Act::Disconnect | Act::Reconnect => None,
 		}
 	}
@@ -355,7 +356,8 @@ struct World {
 	next_mid: u64,
 	intern: Intern,
 	raa_hist: [Vec<[u8; 32]>; 2],
-	point_hist: [Vec<PublicKey>; 2],
+	/// (visible to messages whose raa hist_idx is >= this, point)
+	point_hist: [Vec<(usize, PublicKey)>; 2],
 	cs_hist: [Vec<Signature>; 2],
 	claimable: [Vec<PaymentHash>; 2],
 	preimages: HashMap<PaymentHash, PaymentPreimage>,
@@ -367,9 +369,75 @@ struct World {
 	fee: u32,
 	fee0: u32,
 	last_replayed: usize,
+	funding_vout: u32,
+	funding_tx: Transaction,
+	funding_broadcast: bool,
+	funding_confirmed: [bool; 2],
+	/// batch open: the second channel's funding_signed, not yet delivered to node 0
+	held_fs: Option<msgs::FundingSigned>,
+	batch: bool,
+	skip_dbg: Option<String>,
+	/// last channel_ready emitted by each node
+	last_ready: [Option<msgs::ChannelReady>; 2],
+	/// per receiver: commitment number k whose point was substituted by an accepted
+	/// ready_dup_diff, and whether a raa_subst is to follow
+	subst: [Option<(u64, bool)>; 2],
+	/// set by `deliver` when it applied an HTLC-signature corruption: (kind, nh before)
+	last_cs_corrupt: Option<(&'static str, usize)>,
+	/// set by `ready_dup`
+	dup_ctx: Option<DupCtx>,
+}
+
+struct DupCtx {
+	n: usize,
+	diff: bool,
+	k: u64,
+	before: Option<RevocationView>,
 }
 
 impl World {
+	fn view_json(&mut self, v: &RevocationView) -> String {
+		let pc = self.intern.opt_point(&v.counterparty_current_point);
+		let pn = self.intern.opt_point(&v.counterparty_next_point);
+		format!(
+			"{{\"hn\":{},\"cn\":{},\"ready\":{},\"aw\":{},\"dc\":{},\"mon\":{},\"mpr\":{},\"mpc\":{},\"rf\":{},\"min\":{},\"ours\":{},\"theirs\":{},\"wfb\":{},\"pc\":{},\"pn\":{}}}",
+			v.holder_next,
+			v.counterparty_next,
+			v.channel_ready,
+			v.awaiting_remote_revoke,
+			v.peer_disconnected,
+			v.monitor_update_in_progress,
+			v.monitor_pending_revoke_and_ack,
+			v.monitor_pending_commitment_signed,
+			v.resend_raa_first,
+			v.min_seen_secret,
+			v.awaiting_our_channel_ready_sent,
+			v.awaiting_their_channel_ready_received,
+			v.awaiting_waiting_for_batch,
+			pc,
+			pn
+		)
+	}
+
+	/// How completely the counterparty signed the monitor's current holder commitment.
+	fn holder_json(&self, n: usize) -> String {
+		match self.nodes[n].chain_monitor.chain_monitor.get_monitor(self.chan_id) {
+			Ok(m) => {
+				let h = m.verif_current_holder_sigs();
+				format!(
+					"{{\"num\":{},\"txid\":\"{}\",\"nsig\":{},\"nnd\":{},\"nvalid\":{},\"csig\":{}}}",
+					h.number,
+					tx8(&h.txid),
+					h.n_htlc_sigs,
+					h.n_nondust_htlcs,
+					h.n_valid_htlc_sigs,
+					h.commitment_sig_valid
+				)
+			},
+			Err(()) => "null".to_string(),
+		}
+	}
+
 	fn view(&self, n: usize) -> Option<RevocationView> {
 		vh::revocation_view(self.nodes[n].node, &self.ids[1 - n], &self.chan_id).map(|(_, v)| v)
 	}
@@ -410,6 +478,25 @@ impl World {
 	/// Reports `w` as sent by `from` and queues it towards the peer (unless it is gossip or the
 	/// link is down).
 	fn emit(&mut self, from: usize, w: Wire, disc_after: bool, obs: &mut [Obs; 2]) {
+		// only one channel is observed: traffic of any other channel (second channel of a batch
+		// open) is reported as dropped "other"; errors / warnings always travel
+		let foreign = match &w {
+			Wire::Add(m) => Some(m.channel_id),
+			Wire::Fulfill(m) => Some(m.channel_id),
+			Wire::FailHtlc(m) => Some(m.channel_id),
+			Wire::FailMalformed(m) => Some(m.channel_id),
+			Wire::Fee(m) => Some(m.channel_id),
+			Wire::CS(m) => Some(m.channel_id),
+			Wire::RAA(m) => Some(m.channel_id),
+			Wire::Reest(m) => Some(m.channel_id),
+			Wire::Ready(m) => Some(m.channel_id),
+			Wire::Shutdown(m) => Some(m.channel_id),
+			Wire::ClosingSigned(m) => Some(m.channel_id),
+			_ => None,
+		}
+		.map(|c| c != self.chan_id)
+		.unwrap_or(false);
+		let w = if foreign { Wire::Other("other_channel".to_string()) } else { w };
 		let mid = self.next_mid;
 		self.next_mid += 1;
 		let mut j = self.wire_json(&w, mid);
@@ -429,8 +516,14 @@ impl World {
 			Wire::RAA(m) => {
 				let i = self.raa_hist[from].len();
 				self.raa_hist[from].push(m.per_commitment_secret);
-				self.point_hist[from].push(m.next_per_commitment_point);
+				self.point_hist[from].push((i + 1, m.next_per_commitment_point));
 				i
+			},
+			Wire::Ready(m) => {
+				let vis = self.raa_hist[from].len();
+				self.point_hist[from].push((vis, m.next_per_commitment_point));
+				self.last_ready[from] = Some(m.clone());
+				0
 			},
 			Wire::CS(m) => {
 				let i = self.cs_hist[from].len();
@@ -447,6 +540,13 @@ impl World {
 	}
 
 	fn on_msg_event(&mut self, n: usize, ev: MessageSendEvent, obs: &mut [Obs; 2]) {
+		// batch open: whatever is addressed to the third node is none of our business (and its
+		// interleaving with the observed traffic is not reproducible: per-peer HashMap order)
+		if let Some(skip) = &self.skip_dbg {
+			if format!("{:?}", ev).contains(skip.as_str()) {
+				return;
+			}
+		}
 		let peer = self.ids[1 - n];
 		let other = |k: &str| Wire::Other(k.to_string());
 		match ev {
@@ -504,7 +604,7 @@ impl World {
 					self.claimable[n].push(payment_hash);
 				}
 			},
-			Event::ChannelClosed { reason, .. } => {
+			Event::ChannelClosed { reason, channel_id, .. } if channel_id == self.chan_id => {
 				self.closed_seen[n] = true;
 				obs[n].closed = Some(format!("{:?}", reason));
 			},
@@ -539,7 +639,13 @@ impl World {
 				for tx in txn {
 					activity = true;
 					let txid = tx.compute_txid();
-					let spends = tx.input.iter().any(|i| i.previous_output.txid == self.funding_txid);
+					let spends = tx
+						.input
+						.iter()
+						.any(|i| i.previous_output.txid == self.funding_txid && i.previous_output.vout == self.funding_vout);
+					if txid == self.funding_txid {
+						self.funding_broadcast = true;
+					}
 					obs[n].bcast.push(format!(
 						"{{\"txid\":\"{}\",\"spends_funding\":{},\"nin\":{},\"nout\":{},\"locktime\":{},\"seq0\":{}}}",
 						tx8(&txid),
@@ -563,15 +669,26 @@ impl World {
 	fn collect_log(&self, obs: &mut [Obs; 2]) {
 		for c in vh::signer_log::take() {
 			let txs = c.commitment_txid.map(|t| tx8(&t)).unwrap_or_default();
+			let tail = if c.kind == "validate_holder" {
+				// 5-tuple: .., n_htlc_sigs, n_nondust_htlcs
+				let (a, b) = c.htlc_sig_counts.map(|(a, b)| (a as i64, b as i64)).unwrap_or((-1, -1));
+				format!("\"{}\",{},{}", txs, a, b)
+			} else {
+				format!("\"{}\"", txs)
+			};
 			// by the node-local signer state first (channel_keys_ids can coincide between nodes)
 			let known = (0..2)
 				.find(|n| self.state_ids[*n] == c.state_id)
 				.or_else(|| (0..2).find(|n| self.state_ids[*n] == 0 && self.keys[*n] == c.channel_keys_id));
 			match known {
-				Some(n) => obs[n].log.push(format!("[\"{}\",{},\"{}\"]", c.kind, c.number, txs)),
+				Some(n) => obs[n].log.push(format!("[\"{}\",{},{}]", c.kind, c.number, tail)),
 				None => {
+					// signers of the second channel of a batch open are not observed
+					if self.batch && !self.keys.contains(&c.channel_keys_id) {
+						continue;
+					}
 					for n in 0..2 {
-						obs[n].log.push(format!("[\"?{}\",{},\"{}\"]", c.kind, c.number, txs));
+						obs[n].log.push(format!("[\"?{}\",{},{}]", c.kind, c.number, tail));
 					}
 				},
 			}
@@ -630,7 +747,7 @@ impl World {
 			.list_channels()
 			.iter()
 			.find(|d| d.channel_id == self.chan_id)
-			.and_then(|d| d.short_channel_id)
+			.and_then(|d| d.get_outbound_payment_scid())
 			.ok_or_else(|| "no scid".to_string())?;
 		let hops = vec![RouteHop {
 			pubkey: self.ids[b],
@@ -681,6 +798,7 @@ impl World {
 		}
 		self.connected = false;
 		self.want_disc = false;
+		self.held_fs = None;
 		self.q[0].clear();
 		self.q[1].clear();
 		// a restart is the one moment at which a persister may go back to synchronous operation
@@ -776,6 +894,41 @@ impl World {
 		})
 	}
 
+	/// Delivers to `n` a channel_ready nobody sent: a copy of the peer's last one (`diff` = false)
+	/// or one announcing a different, valid per-commitment point of the peer (`diff` = true).
+	fn ready_dup(&mut self, n: usize, diff: bool, rng: &mut Rng, rec: &Rc<RefCell<Rec>>, hdr: &str) {
+		const INITIAL: u64 = (1 << 48) - 1;
+		let p = 1 - n;
+		let sg = self.nodes[p].keys_manager.derive_channel_signer(self.keys[p]);
+		let mut msg = match &self.last_ready[p] {
+			Some(m) => m.clone(),
+			None => msgs::ChannelReady {
+				channel_id: self.chan_id,
+				next_per_commitment_point: sg.inner.get_per_commitment_point(INITIAL - 1, &self.intern.secp).unwrap(),
+				short_channel_id_alias: None,
+			},
+		};
+		let mut k = INITIAL - 1;
+		if diff {
+			k = [INITIAL, INITIAL - 2, INITIAL - 3, INITIAL - 5][rng.below(4) as usize];
+			msg.next_per_commitment_point = sg.inner.get_per_commitment_point(k, &self.intern.secp).unwrap();
+		}
+		let kind = if diff { "ready_dup_diff" } else { "ready_dup_same" };
+		let before = self.view(n);
+		self.dup_ctx = Some(DupCtx { n, diff, k, before });
+		let mid = self.next_mid;
+		self.next_mid += 1;
+		let mut j = self.wire_json(&Wire::Ready(msg.clone()), mid);
+		j.pop();
+		let body = format!("{},\"corrupt\":\"{}\"", &j[1..], kind);
+		{
+			let mut r = rec.borrow_mut();
+			r.pending = Some(format!("{},\"args\":{{{}}}", hdr, body));
+			r.corrupt.push(kind.to_string());
+		}
+		self.nodes[n].node.handle_channel_ready(self.ids[p], &msg);
+	}
+
 	fn deliver_fabricated(&mut self, n: usize, m: msgs::RevokeAndACK, rec: &Rc<RefCell<Rec>>, hdr: &str) {
 		let mid = self.next_mid;
 		self.next_mid += 1;
@@ -803,7 +956,24 @@ impl World {
 		let from_id = self.ids[from];
 		let mut corrupt: Option<&'static str> = None;
 		let corruptible = matches!(qm.w, Wire::RAA(_) | Wire::CS(_) | Wire::Reest(_));
-		if adv && corruptible && rng.below(12) == 0 {
+		// a commitment_signed carrying HTLC signatures is corrupted more often
+		let one_in = match &qm.w {
+			Wire::CS(m) if !m.htlc_signatures.is_empty() => 3,
+			_ => 12,
+		};
+		let armed_subst = match (&qm.w, self.subst[n]) {
+			(Wire::RAA(_), Some((k, true))) => Some(k),
+			_ => None,
+		};
+		if let Some(k) = armed_subst {
+			// follow-up of an accepted ready_dup_diff: the secret whose point is the substituted one
+			self.subst[n] = None;
+			let sg = self.nodes[from].keys_manager.derive_channel_signer(self.keys[from]);
+			if let (Wire::RAA(m), Ok(sec)) = (&mut qm.w, sg.inner.release_commitment_secret(k)) {
+				m.per_commitment_secret = sec;
+				corrupt = Some("raa_subst");
+			}
+		} else if adv && corruptible && self.view(n).is_some() && rng.below(one_in) == 0 {
 			match &mut qm.w {
 				Wire::RAA(m) => {
 					let olds: Vec<[u8; 32]> = {
@@ -817,10 +987,8 @@ impl World {
 					};
 					let pts: Vec<PublicKey> = {
 						let mut v: Vec<PublicKey> = Vec::new();
-						// the two points announced during the open come first, then one per earlier raa
-						let upto = (2 + qm.hist_idx).min(self.point_hist[from].len());
-						for p in self.point_hist[from][..upto].iter() {
-							if *p != m.next_per_commitment_point && !v.contains(p) {
+						for (vis, p) in self.point_hist[from].iter() {
+							if *vis <= qm.hist_idx && *p != m.next_per_commitment_point && !v.contains(p) {
 								v.push(*p);
 							}
 						}
@@ -851,9 +1019,51 @@ impl World {
 							olds.push(*s);
 						}
 					}
+					let nh = m.htlc_signatures.len();
+					let mut kinds: Vec<&'static str> = Vec::new();
 					if !olds.is_empty() {
-						m.signature = olds[rng.below(olds.len() as u64) as usize];
-						corrupt = Some("cs_sig");
+						kinds.push("cs_sig");
+					}
+					if nh >= 1 {
+						kinds.push("cs_drop_htlc_sigs");
+						kinds.push("cs_empty_htlc_sigs");
+						kinds.push("cs_corrupt_htlc_sig");
+					}
+					kinds.push("cs_extra_htlc_sig");
+					if nh >= 2 {
+						kinds.push("cs_swap_htlc_sigs");
+					}
+					let kind = kinds[rng.below(kinds.len() as u64) as usize];
+					match kind {
+						"cs_sig" => m.signature = olds[rng.below(olds.len() as u64) as usize],
+						"cs_drop_htlc_sigs" => {
+							let r = 1 + rng.below(nh as u64);
+							for _ in 0..r {
+								let i = rng.below(m.htlc_signatures.len() as u64) as usize;
+								m.htlc_signatures.remove(i);
+							}
+						},
+						"cs_empty_htlc_sigs" => m.htlc_signatures.clear(),
+						"cs_corrupt_htlc_sig" => {
+							let i = rng.below(nh as u64) as usize;
+							m.htlc_signatures[i] = m.signature;
+						},
+						"cs_extra_htlc_sig" => {
+							let extra = if nh == 0 { m.signature } else { m.htlc_signatures[rng.below(nh as u64) as usize] };
+							m.htlc_signatures.push(extra);
+						},
+						_ => {
+							let i = rng.below(nh as u64) as usize;
+							let mut j = rng.below(nh as u64 - 1) as usize;
+							if j >= i {
+								j += 1;
+							}
+							m.htlc_signatures.swap(i, j);
+						},
+					}
+					corrupt = Some(kind);
+					if kind != "cs_sig" {
+						self.last_cs_corrupt = Some((kind, nh));
 					}
 				},
 				Wire::Reest(m) => {
@@ -923,14 +1133,16 @@ fn style_from(k: u64) -> ConnectStyle {
 	}
 }
 
-fn obs_json(w: &World, o: &Obs, n: usize) -> String {
+fn obs_json(w: &mut World, o: &Obs, n: usize) -> String {
+	let view = match w.view(n) {
+		Some(v) => w.view_json(&v),
+		None => "null".to_string(),
+	};
 	format!(
-		"{{\"log\":{},\"view\":{},\"sent\":{},\"bcast\":{},\"closed\":{}}}",
+		"{{\"log\":{},\"view\":{},\"holder\":{},\"sent\":{},\"bcast\":{},\"closed\":{}}}",
 		jarr(&o.log),
-		match w.view(n) {
-			Some(v) => view_json(&v),
-			None => "null".to_string(),
-		},
+		view,
+		w.holder_json(n),
 		jarr(&o.sent),
 		jarr(&o.bcast),
 		jopt(&o.closed)
@@ -946,17 +1158,29 @@ fn run_scenario(seed: u64, k: u64, max_steps: u64, flags: &Flags, rec: &Rc<RefCe
 
 	// Everything the nodes borrow is leaked: reloads need fresh chain monitors / managers that
 	// outlive `nodes`, and nothing here may run its test-suite Drop assertions.
-	let persisters: &'static Vec<ModePersister> = Box::leak(Box::new(vec![
-		ModePersister { async_mode: AtomicBool::new(false) },
-		ModePersister { async_mode: AtomicBool::new(false) },
-	]));
-	let cfgs: &'static Vec<TestChanMonCfg> = Box::leak(Box::new(create_chanmon_cfgs(2)));
+	// how the channel comes to life (a batch open needs a third node for the second channel, which is
+	// never looked at again)
+	let (open_mode, zero_conf) = match rng.below(4) {
+		0 | 1 => ("normal", false),
+		2 => ("manual", rng.below(2) == 0),
+		_ => ("batch", true),
+	};
+	{
+		let mut r = rec.borrow_mut();
+		r.open_mode = open_mode.to_string();
+		r.zero_conf = zero_conf;
+	}
+	let nn = if open_mode == "batch" { 3 } else { 2 };
+	let persisters: &'static Vec<ModePersister> =
+		Box::leak(Box::new((0..nn).map(|_| ModePersister { async_mode: AtomicBool::new(false) }).collect()));
+	let cfgs: &'static Vec<TestChanMonCfg> = Box::leak(Box::new(create_chanmon_cfgs(nn)));
 	let node_cfgs: &'static Vec<NodeCfg<'static>> =
-		Box::leak(Box::new(create_node_cfgs_with_persisters(2, cfgs, persisters.iter().collect())));
+		Box::leak(Box::new(create_node_cfgs_with_persisters(nn, cfgs, persisters.iter().collect())));
 	let ucfg = test_legacy_channel_config(); // anchors off: the monitor signs holder commitments directly
+	let ucfgs: Vec<Option<lightning::util::config::UserConfig>> = (0..nn).map(|_| Some(ucfg.clone())).collect();
 	let node_chanmgrs: &'static Vec<TestChannelManager<'static, 'static>> =
-		Box::leak(Box::new(create_node_chanmgrs(2, node_cfgs, &[Some(ucfg.clone()), Some(ucfg)])));
-	let nodes = create_network(2, node_cfgs, node_chanmgrs);
+		Box::leak(Box::new(create_node_chanmgrs(nn, node_cfgs, &ucfgs)));
+	let nodes = create_network(nn, node_cfgs, node_chanmgrs);
 	// one Rc shared by all nodes
 	*nodes[0].connect_style.borrow_mut() = style_from(rng.below(11));
 	for n in nodes.iter() {
@@ -969,14 +1193,136 @@ fn run_scenario(seed: u64, k: u64, max_steps: u64, flags: &Flags, rec: &Rc<RefCe
 	let ids = [nodes[0].node.get_our_node_id(), nodes[1].node.get_our_node_id()];
 	// By default both ends of a test channel derive the SAME channel_keys_id (it only depends on the
 	// user_channel_id and a per-node counter); the signer log is attributed by that id, so force
-	// distinct ones.
+	// distinct ones (consumed by the first channel each node creates / accepts).
 	for n in 0..2 {
 		let mut id = [0u8; 32];
 		id[0] = 0xc0 + n as u8;
 		id[31] = 0x2a;
 		cfgs[n].keys_manager.set_next_keys_id(id);
 	}
-	let (_, _, chan_id, funding_tx) = create_announced_chan_between_nodes_with_value(&nodes, 0, 1, 1_000_000, 400_000_000);
+	// message events pulled during a hand-driven handshake that still have to travel
+	let mut leftover: [Vec<MessageSendEvent>; 3] = [Vec::new(), Vec::new(), Vec::new()];
+	let mut held_fs: Option<msgs::FundingSigned> = None;
+	let chan_id;
+	let funding_tx;
+	let mut funding_vout = 0u32;
+	let funding_broadcast;
+	let funding_confirmed;
+	if open_mode == "normal" {
+		let (_, _, c, t) = create_announced_chan_between_nodes_with_value(&nodes, 0, 1, 1_000_000, 400_000_000);
+		chan_id = c;
+		funding_tx = t;
+		funding_broadcast = true;
+		funding_confirmed = [true, true];
+	} else {
+		// open_channel .. funding_signed by hand; channel_ready travels through the queues
+		fn pick<T>(
+			nodes: &Vec<Node<'static, 'static, 'static>>, n: usize, leftover: &mut [Vec<MessageSendEvent>; 3],
+			f: &dyn Fn(&MessageSendEvent) -> Option<T>,
+		) -> T {
+			let mut found = None;
+			for ev in nodes[n].node.get_and_clear_pending_msg_events() {
+				if found.is_none() {
+					if let Some(x) = f(&ev) {
+						found = Some(x);
+						continue;
+					}
+				}
+				leftover[n].push(ev);
+			}
+			found.expect("handshake message")
+		}
+		let n_chans = if open_mode == "batch" { 2 } else { 1 };
+		let mut tmp_ids = Vec::new();
+		let mut outs = Vec::new();
+		let peer_of = |c: usize| if c == 0 { 1usize } else { 2usize };
+		let all_ids: Vec<PublicKey> = nodes.iter().map(|n| n.node.get_our_node_id()).collect();
+		for c in 0..n_chans {
+			let user_id = 42 + c as u128;
+			let pn = peer_of(c);
+			nodes[0].node.create_channel(all_ids[pn], 1_000_000, 400_000_000, user_id, None, None).unwrap();
+			let open = pick(&nodes, 0, &mut leftover, &|e| match e {
+				MessageSendEvent::SendOpenChannel { msg, .. } => Some(msg.clone()),
+				_ => None,
+			});
+			nodes[pn].node.handle_open_channel(ids[0], &open);
+			for ev in nodes[pn].node.get_and_clear_pending_events() {
+				if let Event::OpenChannelRequest { temporary_channel_id, .. } = ev {
+					if zero_conf && c == 0 {
+						nodes[pn]
+							.node
+							.accept_inbound_channel_from_trusted_peer(
+								&temporary_channel_id,
+								&ids[0],
+								user_id,
+								TrustedChannelFeatures::ZeroConf,
+								None,
+							)
+							.unwrap();
+					} else {
+						nodes[pn].node.accept_inbound_channel(&temporary_channel_id, &ids[0], user_id, None).unwrap();
+					}
+				}
+			}
+			let accept = pick(&nodes, pn, &mut leftover, &|e| match e {
+				MessageSendEvent::SendAcceptChannel { msg, .. } => Some(msg.clone()),
+				_ => None,
+			});
+			nodes[0].node.handle_accept_channel(all_ids[pn], &accept);
+			for ev in nodes[0].node.get_and_clear_pending_events() {
+				if let Event::FundingGenerationReady { temporary_channel_id, channel_value_satoshis, output_script, .. } = ev {
+					tmp_ids.push(temporary_channel_id);
+					outs.push(TxOut { value: Amount::from_sat(channel_value_satoshis), script_pubkey: output_script });
+				}
+			}
+		}
+		assert_eq!(tmp_ids.len(), n_chans);
+		let tx = Transaction {
+			version: bitcoin::transaction::Version::TWO,
+			lock_time: bitcoin::absolute::LockTime::ZERO,
+			input: Vec::new(),
+			output: outs,
+		};
+		if n_chans == 1 {
+			nodes[0].node.funding_transaction_generated(tmp_ids[0], ids[1], tx.clone()).unwrap();
+		} else {
+			let chans: Vec<(&ChannelId, &PublicKey)> = tmp_ids.iter().enumerate().map(|(c, t)| (t, &all_ids[peer_of(c)])).collect();
+			nodes[0].node.batch_funding_transaction_generated(&chans, tx.clone()).unwrap();
+		}
+		let mut fc_all: Vec<msgs::FundingCreated> = Vec::new();
+		for ev in nodes[0].node.get_and_clear_pending_msg_events() {
+			match ev {
+				MessageSendEvent::SendFundingCreated { msg, .. } => fc_all.push(msg),
+				ev => leftover[0].push(ev),
+			}
+		}
+		let fcs: Vec<msgs::FundingCreated> = tmp_ids
+			.iter()
+			.map(|t| fc_all.iter().find(|m| m.temporary_channel_id == *t).expect("funding_created").clone())
+			.collect();
+		assert_eq!(fcs.len(), n_chans);
+		let cid_of = |fc: &msgs::FundingCreated| ChannelId::v1_from_funding_txid(fc.funding_txid.as_byte_array(), fc.funding_output_index);
+		chan_id = cid_of(&fcs[0]);
+		funding_vout = fcs[0].funding_output_index as u32;
+		let mut fss = Vec::new();
+		for (c, fc) in fcs.iter().enumerate() {
+			let pn = peer_of(c);
+			nodes[pn].node.handle_funding_created(ids[0], fc);
+			let want = cid_of(fc);
+			fss.push(pick(&nodes, pn, &mut leftover, &|e| match e {
+				MessageSendEvent::SendFundingSigned { msg, .. } if msg.channel_id == want => Some(msg.clone()),
+				_ => None,
+			}));
+		}
+		// the observed channel's funding_signed first; a batch then waits for the other one
+		nodes[0].node.handle_funding_signed(ids[1], &fss[0]);
+		if n_chans == 2 {
+			held_fs = Some(fss[1].clone());
+		}
+		funding_tx = tx;
+		funding_broadcast = false; // noticed by `drain` when node 0 hands it to the broadcaster
+		funding_confirmed = [false, false];
+	}
 	let fee0 = *cfgs[0].fee_estimator.sat_per_kw.lock().unwrap();
 
 	let mut w = ManuallyDrop::new(World {
@@ -1006,21 +1352,47 @@ fn run_scenario(seed: u64, k: u64, max_steps: u64, flags: &Flags, rec: &Rc<RefCe
 		fee: fee0,
 		fee0,
 		last_replayed: 0,
+		funding_vout,
+		funding_tx: funding_tx.clone(),
+		funding_broadcast,
+		funding_confirmed,
+		held_fs,
+		batch: open_mode == "batch",
+		skip_dbg: None,
+		last_ready: [None, None],
+		subst: [None, None],
+		last_cs_corrupt: None,
+		dup_ctx: None,
 	});
 
-	// setup noise is not part of the trace
+	if nn == 3 {
+		w.skip_dbg = Some(format!("{:?}", w.nodes[2].node.get_our_node_id()));
+	}
+	// setup noise is not part of the trace; channel_ready messages of a hand-driven open stay queued
 	{
 		let mut scratch: [Obs; 2] = Default::default();
+		let lo: Vec<Vec<MessageSendEvent>> = leftover.iter_mut().map(|v| v.drain(..).collect()).collect();
+		for (n, evs) in lo.into_iter().enumerate().take(2) {
+			for ev in evs {
+				w.on_msg_event(n, ev, &mut scratch);
+			}
+		}
 		w.drain(&mut scratch);
 		let _ = vh::signer_log::take();
-		w.q[0].clear();
-		w.q[1].clear();
 		w.claimable = [Vec::new(), Vec::new()];
-		w.raa_hist = [Vec::new(), Vec::new()];
-		w.point_hist = [Vec::new(), Vec::new()];
-		w.cs_hist = [Vec::new(), Vec::new()];
 		w.spends.clear();
-		w.next_mid = 0;
+		if open_mode == "normal" {
+			w.q[0].clear();
+			w.q[1].clear();
+			w.raa_hist = [Vec::new(), Vec::new()];
+			w.point_hist = [Vec::new(), Vec::new()];
+			w.cs_hist = [Vec::new(), Vec::new()];
+			w.last_ready = [None, None];
+			w.next_mid = 0;
+		} else {
+			let mut r = rec.borrow_mut();
+			r.init_sent = vec![jarr(&scratch[0].sent), jarr(&scratch[1].sent)];
+		}
 	}
 	// init
 	{
@@ -1032,23 +1404,24 @@ fn run_scenario(seed: u64, k: u64, max_steps: u64, flags: &Flags, rec: &Rc<RefCe
 			let sg = w.nodes[n].keys_manager.derive_channel_signer(kid);
 			w.state_ids[n] = std::sync::Arc::as_ptr(&sg.state) as usize;
 			keys.push(js(&hex(&kid)));
-			let p0 = w.intern.opt_point(&v.counterparty_current_point);
-			let p1 = w.intern.opt_point(&v.counterparty_next_point);
 			// points announced by the PEER of n during the open
 			if let Some(p) = v.counterparty_current_point {
-				w.point_hist[1 - n].push(p);
+				w.point_hist[1 - n].insert(0, (0, p));
 			}
 			if let Some(p) = v.counterparty_next_point {
-				w.point_hist[1 - n].push(p);
+				let at = if v.counterparty_current_point.is_some() { 1 } else { 0 };
+				if !w.point_hist[1 - n].iter().any(|(_, q)| *q == p) {
+					w.point_hist[1 - n].insert(at, (0, p));
+				}
 			}
-			init.push(format!("{{\"view\":{},\"p0\":{},\"p1\":{}}}", view_json(&v), p0, p1));
-		}
-		// `deliver` assumes exactly two open-time points per sender
-		for n in 0..2 {
-			while w.point_hist[n].len() < 2 {
-				let p = w.point_hist[n].last().copied().unwrap_or(w.ids[n]);
-				w.point_hist[n].push(p);
-			}
+			let (p0, p1) = if open_mode == "normal" {
+				(w.intern.opt_point(&v.counterparty_current_point), w.intern.opt_point(&v.counterparty_next_point))
+			} else {
+				// before any channel_ready: only the first per-commitment point is known
+				(w.intern.opt_point(&v.counterparty_next_point), -1)
+			};
+			let vj = w.view_json(&v);
+			init.push(format!("{{\"view\":{},\"holder\":{},\"p0\":{},\"p1\":{}}}", vj, w.holder_json(n), p0, p1));
 		}
 		let mut r = rec.borrow_mut();
 		r.keys = keys;
@@ -1059,8 +1432,8 @@ fn run_scenario(seed: u64, k: u64, max_steps: u64, flags: &Flags, rec: &Rc<RefCe
 	// Each destructive family is active in about half of the scenarios and starts at a random point,
 	// so that channel lifetimes are spread (some channels live through the whole scenario).
 	let late = |rng: &mut Rng| max_steps / 4 + rng.below((max_steps - max_steps / 4).max(1));
-	let adv_on = rng.below(2) == 0;
-	let adv_at = rng.below(max_steps.max(1));
+	let adv_on = rng.below(3) != 0;
+	let adv_at = rng.below((max_steps / 2).max(1));
 	let close_on = rng.below(2) == 0;
 	let close_at = late(&mut rng);
 	let stale_on = rng.below(2) == 0;
@@ -1069,6 +1442,8 @@ fn run_scenario(seed: u64, k: u64, max_steps: u64, flags: &Flags, rec: &Rc<RefCe
 	let close_start = if flags.close && close_on { close_at } else { u64::MAX };
 	let stale_start = if flags.reload && stale_on { stale_at } else { u64::MAX };
 	let extra_on = rng.below(2) == 0;
+	let hs_dup_on = rng.below(2) == 0;
+	let late_dup_on = rng.below(3) == 0;
 
 	for step in 0..max_steps {
 		let views = [w.view(0), w.view(1)];
@@ -1083,14 +1458,41 @@ fn run_scenario(seed: u64, k: u64, max_steps: u64, flags: &Flags, rec: &Rc<RefCe
 			en.push((1, Act::Disconnect));
 		} else {
 			w.want_disc = false;
+			// handshake phase: the channel exists on both sides but is not ChannelReady on both
+			let hs = both_open && !ready;
+			let blocks_ok = |w: &World, n: usize| w.funding_confirmed[n] || (!hs && !w.funding_broadcast);
 			for n in 0..2 {
 				if w.connected && !w.q[n].is_empty() {
 					en.push((28, Act::Deliver(n)));
 				}
 			}
+			if w.funding_broadcast {
+				for n in 0..2 {
+					if !w.funding_confirmed[n] {
+						en.push((if hs { 8 } else { 3 }, Act::FundConfirm(n)));
+					}
+				}
+			}
+			if w.held_fs.is_some() && w.connected && open[0] {
+				en.push((6, Act::BatchComplete));
+			}
+			if flags.adv && w.connected {
+				for n in 0..2 {
+					if !open[n] {
+						continue;
+					}
+					if hs && hs_dup_on && w.last_ready[1 - n].is_some() {
+						en.push((4, Act::ReadyDup(n, false)));
+						en.push((2, Act::ReadyDup(n, true)));
+					} else if !hs && late_dup_on && step >= adv_start {
+						en.push((1, Act::ReadyDup(n, false)));
+						en.push((1, Act::ReadyDup(n, true)));
+					}
+				}
+			}
 			if flags.adv && extra_on && step >= adv_start && w.connected {
 				for n in 0..2 {
-					if views[n].as_ref().map(|v| !v.awaiting_remote_revoke && v.counterparty_next > 0).unwrap_or(false) {
+					if views[n].as_ref().map(|v| v.channel_ready && !v.awaiting_remote_revoke && v.counterparty_next > 0).unwrap_or(false) {
 						en.push((4, Act::Extra(n)));
 					}
 				}
@@ -1107,7 +1509,7 @@ fn run_scenario(seed: u64, k: u64, max_steps: u64, flags: &Flags, rec: &Rc<RefCe
 			}
 			for n in 0..2 {
 				if !w.claimable[n].is_empty() {
-					en.push((8, Act::Claim(n)));
+					en.push((5, Act::Claim(n)));
 					en.push((2, Act::Fail(n)));
 				}
 			}
@@ -1115,7 +1517,12 @@ fn run_scenario(seed: u64, k: u64, max_steps: u64, flags: &Flags, rec: &Rc<RefCe
 				en.push((2, Act::Fee));
 			}
 			if w.connected {
-				en.push((2, Act::Disconnect));
+				// in the handshake phase only once a funding confirmation (or 0-conf) lets channel_ready
+				// messages flow, and never while a batch is incomplete
+				let hs_ok = w.held_fs.is_none() && (zero_conf || w.funding_confirmed[0] || w.funding_confirmed[1]);
+				if !hs || hs_ok {
+					en.push((2, Act::Disconnect));
+				}
 			} else {
 				en.push((16, Act::Reconnect));
 			}
@@ -1123,12 +1530,12 @@ fn run_scenario(seed: u64, k: u64, max_steps: u64, flags: &Flags, rec: &Rc<RefCe
 				for n in 0..2 {
 					if async_mode[n] {
 						en.push((6, Act::MonComplete(n)));
-					} else if open[n] {
+					} else if open[n] && !hs {
 						en.push((1, Act::MonAsync(n)));
 					}
 				}
 			}
-			if flags.reload {
+			if flags.reload && !hs {
 				for n in 0..2 {
 					if !async_mode[n] && w.pending_updates(n).is_empty() {
 						en.push((1, Act::Reload(n)));
@@ -1143,11 +1550,13 @@ fn run_scenario(seed: u64, k: u64, max_steps: u64, flags: &Flags, rec: &Rc<RefCe
 			}
 			if flags.close {
 				for n in 0..2 {
-					if open[n] && step >= close_start {
+					if open[n] && !hs && step >= close_start {
 						en.push((2, Act::ForceClose(n)));
 					}
-					en.push((if open[n] { 1 } else { 4 }, Act::Blocks(n)));
-					if w.confirmed_spend[n].is_none() && !w.spends.is_empty() {
+					if blocks_ok(&w, n) {
+						en.push((if open[n] { 1 } else { 4 }, Act::Blocks(n)));
+					}
+					if !hs && w.confirmed_spend[n].is_none() && !w.spends.is_empty() {
 						en.push((8, Act::Confirm(n)));
 					}
 				}
@@ -1204,8 +1613,28 @@ fn run_scenario(seed: u64, k: u64, max_steps: u64, flags: &Flags, rec: &Rc<RefCe
 				},
 				None => args = "\"t\":\"raa\",\"corrupt\":\"raa_extra\",\"skipped\":true".to_string(),
 			},
+			Act::ReadyDup(n, diff) => {
+				w.ready_dup(n, diff, &mut rng, rec, &hdr);
+				let p = rec.borrow().pending.clone().unwrap();
+				let at = p.find("\"args\":{").unwrap() + 8;
+				args = p[at..p.len() - 1].to_string();
+			},
+			Act::FundConfirm(n) => {
+				let h = w.nodes[n].best_block_info().1 + 1;
+				args = format!("\"height\":{}", h);
+				rec.borrow_mut().pending = Some(format!("{},\"args\":{{{}}}", hdr, args));
+				w.funding_confirmed[n] = true;
+				let tx = w.funding_tx.clone();
+				confirm_transaction_at(&w.nodes[n], &tx, h);
+				connect_blocks(&w.nodes[n], CHAN_CONFIRM_DEPTH - 1);
+			},
+			Act::BatchComplete => {
+				let fs = w.held_fs.take().unwrap();
+				let from = w.nodes[2].node.get_our_node_id();
+				w.nodes[0].node.handle_funding_signed(from, &fs);
+			},
 			Act::Send(n) => {
-				let (kind, amt) = [("dust", 100_000u64), ("small", 2_000_000), ("medium", 40_000_000)][rng.below(3) as usize];
+				let (kind, amt) = [("dust", 100_000u64), ("small", 2_000_000), ("medium", 40_000_000), ("small", 2_000_000), ("medium", 40_000_000), ("dust", 100_000), ("small", 2_000_000), ("medium", 40_000_000)][rng.below(8) as usize];
 				let pre = format!("\"kind\":\"{}\",\"amt\":{}", kind, amt);
 				rec.borrow_mut().pending = Some(format!("{},\"args\":{{{}}}", hdr, pre));
 				let res = w.send(n, amt);
@@ -1332,8 +1761,42 @@ fn run_scenario(seed: u64, k: u64, max_steps: u64, flags: &Flags, rec: &Rc<RefCe
 					r.closed = true;
 				}
 			}
-			let o0 = obs_json(&w, &obs[0], 0);
-			let o1 = obs_json(&w, &obs[1], 1);
+			if let Some(ctx) = w.dup_ctx.take() {
+				let kind = if ctx.diff { "ready_dup_diff" } else { "ready_dup_same" };
+				if let Some(b) = &ctx.before {
+					r.dup_states.push(format!(
+						"{} ready={} ours={} theirs={} wfb={}",
+						kind,
+						b.channel_ready as u8,
+						b.awaiting_our_channel_ready_sent as u8,
+						b.awaiting_their_channel_ready_received as u8,
+						b.awaiting_waiting_for_batch as u8
+					));
+					if let Some(a) = w.view(ctx.n) {
+						let changed = a.counterparty_current_point != b.counterparty_current_point
+							|| a.counterparty_next_point != b.counterparty_next_point;
+						if changed {
+							// legitimate only as the FIRST channel_ready this node sees
+							if b.channel_ready || b.awaiting_their_channel_ready_received {
+								r.dup_violations += 1;
+							}
+							if ctx.diff {
+								w.subst[ctx.n] = Some((ctx.k, rng.below(2) == 0));
+							}
+						}
+					}
+				}
+			}
+			if let Some((kind, nh)) = w.last_cs_corrupt.take() {
+				r.cs_htlc.push(format!("{} nh={}", kind, if nh >= 2 { "2+".to_string() } else { nh.to_string() }));
+				let n = act.node().unwrap();
+				let released = obs[n].log.iter().any(|l| l.starts_with("[\"release\""));
+				if obs[n].closed.is_none() || released {
+					r.cs_violations += 1;
+				}
+			}
+			let o0 = obs_json(&mut w, &obs[0], 0);
+			let o1 = obs_json(&mut w, &obs[1], 1);
 			r.steps.push(format!("{{{},\"args\":{{{}}},\"obs\":[{},{}]}}", hdr, args, o0, o1));
 			r.pending = None;
 		}
@@ -1366,6 +1829,11 @@ struct Stats {
 	htlc_signed: u64,
 	fc_with_htlcs: u64,
 	panics: u64,
+	open_modes: BTreeMap<String, u64>,
+	dup_states: BTreeMap<String, u64>,
+	dup_violations: u64,
+	cs_htlc: BTreeMap<String, u64>,
+	cs_violations: u64,
 }
 
 fn run_one(seed: u64, k: u64, max_steps: u64, flags: &Flags, stats: &mut Stats) {
@@ -1384,14 +1852,17 @@ fn run_one(seed: u64, k: u64, max_steps: u64, flags: &Flags, stats: &mut Stats) 
 		r.steps.push(format!("{{{},\"obs\":null,\"panicked\":true}}", p));
 	}
 	println!(
-		"R {{\"k\":{},\"seed\":{},\"max_steps\":{},\"flags\":{},\"panic\":{},\"keys\":{},\"init\":{},\"steps\":{}}}",
+		"R {{\"k\":{},\"seed\":{},\"max_steps\":{},\"flags\":{},\"panic\":{},\"open\":{},\"zero_conf\":{},\"keys\":{},\"init\":{},\"init_sent\":{},\"steps\":{}}}",
 		k,
 		seed,
 		max_steps,
 		js(&flags.raw),
 		jopt(&panic_msg),
+		js(&r.open_mode),
+		r.zero_conf,
 		jarr(&r.keys),
 		jarr(&r.init),
+		jarr(&r.init_sent),
 		jarr(&r.steps)
 	);
 	stats.scenarios += 1;
@@ -1411,6 +1882,16 @@ fn run_one(seed: u64, k: u64, max_steps: u64, flags: &Flags, stats: &mut Stats) 
 	stats.htlc_signed += r.htlc_signed as u64;
 	stats.fc_with_htlcs += r.fc_with_htlcs as u64;
 	stats.panics += panic_msg.is_some() as u64;
+	let om = format!("{}{}", r.open_mode, if r.zero_conf && r.open_mode == "manual" { "+0conf" } else { "" });
+	*stats.open_modes.entry(om).or_insert(0) += 1;
+	for d in r.dup_states.iter() {
+		*stats.dup_states.entry(d.clone()).or_insert(0) += 1;
+	}
+	for d in r.cs_htlc.iter() {
+		*stats.cs_htlc.entry(d.clone()).or_insert(0) += 1;
+	}
+	stats.dup_violations += r.dup_violations;
+	stats.cs_violations += r.cs_violations;
 }
 
 fn json_u64(s: &str, key: &str) -> Option<u64> {
@@ -1431,12 +1912,28 @@ fn print_stats(st: &Stats) {
 	eprintln!("h_revoke: scenarios={} panics={}", st.scenarios, st.panics);
 	eprintln!("h_revoke: actions:");
 	for (a, c) in st.acts.iter() {
-		eprintln!("h_revoke:   {:<18}{}", a, c);
+		eprintln!("h_revoke:   {:<22}{}", a, c);
 	}
 	eprintln!("h_revoke: corrupted deliveries:");
 	for (a, c) in st.corrupt.iter() {
-		eprintln!("h_revoke:   {:<18}{}", a, c);
+		eprintln!("h_revoke:   {:<22}{}", a, c);
 	}
+	eprintln!("h_revoke: open modes:");
+	for (a, c) in st.open_modes.iter() {
+		eprintln!("h_revoke:   {:<22}{}", a, c);
+	}
+	eprintln!("h_revoke: injected channel_ready by receiver state before delivery:");
+	for (a, c) in st.dup_states.iter() {
+		eprintln!("h_revoke:   {:<52}{}", a, c);
+	}
+	eprintln!("h_revoke: commitment_signed htlc-signature corruptions by nh:");
+	for (a, c) in st.cs_htlc.iter() {
+		eprintln!("h_revoke:   {:<30}{}", a, c);
+	}
+	eprintln!(
+		"h_revoke: violations: injected channel_ready changed counterparty points after a channel_ready had been received={} htlc-signature corruption not closed or followed by release={}",
+		st.dup_violations, st.cs_violations
+	);
 	let n = st.scenarios.max(1);
 	eprintln!("h_revoke: release calls total={} avg/scenario={:.1}", st.releases, st.releases as f64 / n as f64);
 	eprintln!("h_revoke: scenarios with close={} reload={} stale_reload={} retransmitted_raa={} retransmitted_cs={} async_completion_with_pending={} force_close_with_htlcs={} sign_holder_htlc={}",
